@@ -760,7 +760,7 @@ func runBatch(m *mon.M, g *Regen) {
 }
 
 func run(m *mon.M) {
-	batches := m.N(50, 625)
+	batches := m.N(150, 900)
 	for b := 0; b < batches; b++ {
 		g := &Regen{Seed: m.Seed, Shard: m.Shard, Batch: b, Count: batchSize}
 		m.Begin(&Case{Regen: g, BodyKind: "batch", Stream: Script{ErrAt: -1}})
